@@ -466,6 +466,19 @@ fn plant_packs(rng: &mut Rng, root: &Path, tmp: &Path, n_stash: &mut usize, be: 
             }
         }
     }
+    if data {
+        // key files and the config file are never cached either: foreign files at `keys/<xx>/<id>`, `config/00/00…0` (opening the
+        // repository reads both)
+        for (t, id) in be.ids(FileType::Key).into_iter().map(|i| (FileType::Key, i)).chain(std::iter::once((FileType::Config, Id::default()))) {
+            if rng.chance(1, 2) {
+                let hex_id = id.to_hex();
+                let size = be.get(t, &id).map_or(10, |b| b.len());
+                let n = if rng.chance(1, 2) { size } else { size + 1 + rng.below(9) as usize };
+                let d = if rng.chance(1, 2) { vec![0u8; n] } else { rng.bytes(n) };
+                put_file(&root.join(t.dirname()).join(&hex_id[0..2]).join(hex_id.as_str()), &d);
+            }
+        }
+    }
     if tree && rng.chance(1, 2) {
         // a stale pack: "another process" pruned it from the repository
         let id: Id = hex::encode(rng.bytes(32)).parse().unwrap();
